@@ -42,7 +42,7 @@ theorem invariant_of_steps (P : St → Prop) (h0 : P {})
     | recv mid seq m =>
       simp only [Mtv.Client.step, Option.some.injEq] at hst
       subst hst
-      exact process_preserves P h1 h2 h3 h4 h5 h6 m s mid seq ih
+      exact process_preserves P h1 h2 h3 h4 h5 h6 m 0 s mid seq ih
 
 /-! ### what the individual transitions do to the state (unfolding lemmas) -/
 
